@@ -3,6 +3,9 @@ import JominiModel.Spec.BinDoc
 import JominiModel.Proofs.BinDeSeq
 import JominiModel.Proofs.BinDe
 import JominiModel.Proofs.BinDeFlat
+import JominiModel.Proofs.BinEndToEnd
+import JominiModel.Proofs.BinDeNested
+import JominiModel.Proofs.BinEndToEndLex
 /-
 C04 — binary deserialization agrees across tape, on-demand and streaming paths.
 Helper lemmas: Proofs/BinDe.lean (dispatch), Proofs/BinDeSeq.lean (sequential readers).
